@@ -62,6 +62,14 @@ def main(argv):
                     if m.get("r") == "panic" or idl.get("r") == "panic":
                         run.violation("corr", "theorem encBody_no_panic contradicted by evaluation on %s (model bug)" % T,
                                       {"pdl": d["text"], "type": T, "value": v, "corr": "thm:encBody_no_panic"}, found_input=False)
+                # theorem encode_succeeds_iff_reference: hypothesis convWfBody on the layout; statement on this value:
+                # the reference-mode encoder succeeds with bs  <=>  Ref.encode = bs
+                if mlen.get("convwf") and typed:
+                    run.count("theorem_instances_iff_reference")
+                    if (idl.get("r") == "ok") != (ref.get("r") == "ok") or (idl.get("r") == "ok" and idl.get("hex") != ref.get("hex")):
+                        run.violation("corr", "theorem encode_succeeds_iff_reference contradicted by evaluation on %s (model bug)" % T,
+                                      {"pdl": d["text"], "type": T, "value": v, "corr": "thm:encode_succeeds_iff_reference"}, found_input=False)
+                run.hist("theorem_hypotheses", "convWfBody:%s" % bool(mlen.get("convwf")))
                 if r.get("r") == "badvalue":
                     continue
                 if not typed:
